@@ -1,5 +1,5 @@
 (* Check/TorfileCheck.v — correspondence and monitor predicates for C13. *)
-From Storrent Require Import Base.Bytes Base.Bencode Gen.Consts Model.Wire Model.Torfile Model.TorWrite Check.WireCheck.
+From Storrent Require Import Base.Bytes Base.Bencode Gen.Consts Model.Wire Model.Torfile Model.TorWrite Model.Magnet Check.WireCheck.
 Open Scope N_scope.
 
 Inductive tobs :=
@@ -70,3 +70,35 @@ Definition monitor13 (c : tcase) : bool :=
 
 Definition bad_corr13 (cs : list tcase) : list N := map t_id (filter (fun c => negb (corr13 c)) cs).
 Definition bad_monitor13 (cs : list tcase) : list N := map t_id (filter (fun c => negb (monitor13 c)) cs).
+
+(* ---------- magnet links ---------- *)
+Inductive mobs := MObsNil | MObsErr | MObsOk (h : bytes) | MObsPanic.
+
+(* on the specified shapes the outcome is the model's; everywhere: no crash, and a hash has 20 bytes *)
+Definition corr_magnet (c : N * bytes * mobs) : bool :=
+  let '(_, m, o) := c in
+  negb (magnet_shape m) ||
+  match read_magnet m, o with
+  | MgNil, MObsNil | MgErr, MObsErr => true
+  | MgOk h, MObsOk h' => bytes_eqb h h'
+  | _, _ => false
+  end.
+(* the hash named by the link: some 40 characters of the input are its hex form or some 32 its base32 form
+   (judged where no escape can hide it: the specified shapes) *)
+Fixpoint names_hash (h m : bytes) : bool :=
+  match m with
+  | [] => false
+  | _ :: r =>
+    (match hex_decode (firstn 40 m) with Some x => bytes_eqb x h | None => false end) ||
+    (match b32_decode 5 (firstn 32 m) with Some x => bytes_eqb x h | None => false end) ||
+    names_hash h r
+  end.
+Definition mon_magnet (c : N * bytes * mobs) : bool :=
+  let '(_, m, o) := c in
+  match o with
+  | MObsPanic => false
+  | MObsOk h => (len h =? 20) && (negb (magnet_shape m) || names_hash h m)
+  | _ => true
+  end.
+Definition bad_corr_magnet (cs : list (N * bytes * mobs)) : list N := map (fun c => fst (fst c)) (filter (fun c => negb (corr_magnet c)) cs).
+Definition bad_monitor_magnet (cs : list (N * bytes * mobs)) : list N := map (fun c => fst (fst c)) (filter (fun c => negb (mon_magnet c)) cs).
